@@ -225,9 +225,10 @@ func (m *DisputeMonitor) BeginBlockEntry(c *Chain, ctx sdk.Context) {
 // ---- reference tally (C12) ----
 
 type refTally struct {
-	result string // support / against / invalid
-	quorum bool
-	near   bool // quorum ratio within rounding distance of 51%
+	result   string // support / against / invalid
+	quorum   bool
+	near     bool // quorum ratio within rounding distance of 51%, or the two leading choices closer than the implementation's precision
+	exactTie bool // the two leading choices tie exactly, group by group
 }
 
 func (m *DisputeMonitor) referenceTally(c *Chain, ctx sdk.Context, d disputetypes.Dispute, info disputetypes.BlockInfo, haveInfo bool) (refTally, bool) {
@@ -274,6 +275,25 @@ func (m *DisputeMonitor) referenceTally(c *Chain, ctx sdk.Context, d disputetype
 	sort.Slice(vals, func(i, j int) bool { return vals[i].Cmp(vals[j]) > 0 })
 	if new(big.Rat).Sub(vals[0], vals[1]).Cmp(big.NewRat(5, 1_000_000)) < 0 {
 		rt.near = true
+		// ... except for a tie that is exact group by group (each group gives the two leading choices the same
+		// number of votes): any arithmetic that treats the choices alike computes equal sums, so the outcome
+		// ("no majority": invalid) can be compared
+		symmetric := func(x, y func(g grp) uint64) bool {
+			for _, g := range groups {
+				if x(g) != y(g) {
+					return false
+				}
+			}
+			return true
+		}
+		S, A, I := func(g grp) uint64 { return g.s }, func(g grp) uint64 { return g.a }, func(g grp) uint64 { return g.i }
+		switch {
+		case sup.Cmp(ag) == 0 && sup.Cmp(inv) > 0 && symmetric(S, A),
+			sup.Cmp(inv) == 0 && sup.Cmp(ag) > 0 && symmetric(S, I),
+			ag.Cmp(inv) == 0 && ag.Cmp(sup) > 0 && symmetric(A, I):
+			rt.near = ratio.Cmp(lo) >= 0 && ratio.Cmp(hi) <= 0
+			rt.exactTie = true
+		}
 	}
 	switch {
 	case sup.Cmp(ag) > 0 && sup.Cmp(inv) > 0:
